@@ -20,9 +20,17 @@ def units(a, g):
 
 # ------------------------------------------------------------------ monitors
 
+def lds_units(op):
+    """LDS a work-group uses, in 256-byte units: the code object's static size or, if larger, the size in
+    the dispatch packet (static + dynamic; what the driver asks for and the compute unit allocates)"""
+    return units(max(op['lds'], op.get('dyn', 0)), 256)
+
+
+DYN_LDS = 'co-resident work-groups exceed the LDS of the compute unit'
+
 def regions_of(op, locs):
     """per work-group: sgpr regions, lds region, vgpr regions per simd (unit offsets)"""
-    su, vu, lu = units(op['sgpr'], 16), units(op['vgpr'], 4), units(op['lds'], 256)
+    su, vu, lu = units(op['sgpr'], 16), units(op['vgpr'], 4), lds_units(op)
     s = [(l[2] // 64, su) for l in locs]
     v = [(l[0], l[1] // 16, vu) for l in locs]
     lds = sorted({(l[3] // 256, lu) for l in locs})
@@ -54,6 +62,20 @@ def monitor_res(case):
     ssize, lsize = cfg['sregs'] // 16, cfg['lds'] // 256
     vsize = [v // 4 // 64 for v, _ in cfg['simds']]
     pool = [p for _, p in cfg['simds']]
+    # first the capacity rule with the LDS a work-group really uses (static + dynamic), over the whole history
+    live = {}
+    for i, o in enumerate(case['ops']):
+        key = tuple(o['key'])
+        if o.get('crash') or (o['op'] == 'r' and (key in live or o['nwf'] < 1)) or (o['op'] == 'f' and key not in live):
+            break
+        if o['op'] == 'f':
+            del live[key]
+        elif o.get('ok'):
+            live[key] = o
+            need = sum(lds_units(x) for x in live.values())
+            if need > lsize:
+                return ('call %d: %s: %d resident work-groups use %d LDS units (packet size, static + dynamic), the CU has %d'
+                        % (i, DYN_LDS, len(live), need, lsize))
     res = collections.OrderedDict()
     prev = None
     for i, o in enumerate(case['ops']):
@@ -111,7 +133,13 @@ def monitor_res(case):
 
 
 def monitor_cp(case):
-    """Property C09 on the port-level trace of the real command processor."""
+    """Property C09 on the port-level trace of the real command processor (the capacity rule with the
+    LDS really used is looked for first over the whole history: it names the cause)."""
+    m = monitor_cp_rules(case, True)
+    return m if m and DYN_LDS in m else monitor_cp_rules(case, False)
+
+
+def monitor_cp_rules(case, skip_region_rules):
     if case.get('hostile'):
         return None
     launches, mapped, owner, done, resident, answered = {}, {}, {}, set(), {}, set()
@@ -160,6 +188,10 @@ def monitor_cp(case):
             if any(x[0] >= len(cu['simds']) for x in m['locs']):
                 return 'event %d: wavefront placed on a SIMD that does not exist' % i
             resident[m['id']] = (m['cu'], regions_of(l, m['locs']))
+            need = sum(sum(n for _, n in ld) for (c, (_, _, ld)) in resident.values() if c == m['cu'])
+            if need > cu['lds'] // 256:
+                return ('event %d: %s: the work-groups resident on CU %d use %d LDS units (packet size, static + dynamic), '
+                        'the CU has %d' % (i, DYN_LDS, m['cu'], need, cu['lds'] // 256))
             # all work-groups that are certainly resident on this CU now
             sregs, lregs, vregs = [], [], [[] for _ in cu['simds']]
             for (c, (s, v, ld)) in resident.values():
@@ -172,6 +204,8 @@ def monitor_cp(case):
             for name, size, regs in [('SGPR', cu['sregs'] // 16, sregs), ('LDS', cu['lds'] // 256, lregs)] + \
                     [('VGPR of SIMD %d' % j, cu['simds'][j][0] // 256, vregs[j]) for j in range(len(cu['simds']))]:
                 cells = paint(size, regs)
+                if skip_region_rules:
+                    continue
                 if cells is None:
                     return 'event %d: %s region beyond the capacity of CU %d' % (i, name, m['cu'])
                 if any(c > 1 for c in cells):
@@ -442,9 +476,9 @@ def main(argv):
     rep.samples = [{'mode': c['mode'], 'first': [dict((k, v) for k, v in x.items() if k in ('op', 'e', 'key', 'ok', 'ids', 'rsp', 'a', 'n')) for x in seq(c)[:12]]}
                    for c in (res_cases[:1] + cp_cases[:1] + emu_cases[:1])]
 
-    def fails_monitor(items, base):
+    def fails_monitor(items, base, needle=''):
         out, _ = run_impl(binary, cases=[strip(with_seq(base, items))])
-        return bool(out) and monitor(out[0]) is not None
+        return bool(out) and needle in (monitor(out[0]) or ' ')[:400] and monitor(out[0]) is not None
 
     if not bad and (mism or not okc) and not replay_file:
         # try harder: more seeds through the property monitor only
@@ -461,9 +495,10 @@ def main(argv):
                 break
 
     if bad:
+        bad.sort(key=lambda b: (DYN_LDS not in b[1], b[0]))      # the capacity rule first: it names the cause
         i, msg = bad[0]
         c = cases[i]
-        small = vlib.ddmin(seq(c), lambda items: fails_monitor(items, c), budget=120)
+        small = vlib.ddmin(seq(c), lambda items: fails_monitor(items, c, DYN_LDS if DYN_LDS in msg else ''), budget=120)
         out, _ = run_impl(binary, cases=[strip(with_seq(c, small))])
         final = out[0] if out and monitor(out[0]) else c
         final = dict(final)
